@@ -12,9 +12,12 @@ CHECK = {
         "technique": "property-based testing (rapid), differential against a reference Merkle verifier; plan-first with structural mutations",
         "runs": [
             {"name": "c03", "run": "^TestC03_HeaderProofs$", "checks": {"quick": 8000, "thorough": 30000}, "shards": {"quick": 1, "thorough": 16}},
+            {"name": "c03default", "run": "^TestC03_DefaultValidators$", "checks": {"quick": 1500, "thorough": 20000}, "shards": {"quick": 1, "thorough": 8}},
             {"name": "c03prover", "run": "^TestC03_RepoProver$", "checks": {"quick": 60, "thorough": 400}, "shards": {"quick": 1, "thorough": 16}},
         ],
-        "rule": "rapid draws a world: an era for the header's block number (first/last/+-1 of each era = the fork boundaries, or random), "
+        "rule": "[production wiring] validators built as the node builds them (embedded mainnet accumulators; 1..4 instances per process, the last one judged) on the repository's genuine "
+                "mainnet header proofs with the proof slot moved by 0/+-1/2/757..759 periods, 0..3 accumulator lengths and 0/+-1/8191 slots; verdict must equal the reference's against the "
+                "embedded accumulators. [synthetic accumulators] rapid draws a world: an era for the header's block number (first/last/+-1 of each era = the fork boundaries, or random), "
                 "pre-merge an epoch accumulator of 1..8192 records (SSZ list root with length mix-in) placed in a 1897-entry epoch list, "
                 "post-merge a beacon block root committing to the header hash at gindex 3228/6444 placed at a slot of a sparse or full "
                 "8192-leaf block_roots vector that is committed by a historical root (depth 14) or a historical summary (depth 13, held by "
